@@ -3,6 +3,8 @@ import Dashu.Model.Int.Ops
 import Dashu.Model.Int.Pow
 import Dashu.Model.Int.PowCompose
 import Dashu.Model.Int.PowFull
+import Dashu.Model.Int.OpsForms
+import Dashu.Model.Int.PowGuard
 /-
   Driver of group `int` (C01, C02): runs the mirrored model; beside every result it evaluates the
   `Int`/`Nat` specification and appends ` !model-spec-mismatch` if they differ (cannot happen for
@@ -23,39 +25,134 @@ def forms3 (f : Nat → String) : String :=
   let r0 := f 0; let r1 := f 1; let r2 := f 2
   if r0 = r1 ∧ r1 = r2 then r0 else r0 ++ " !model-forms-disagree"
 
+/-- what `verif_harness::forms::merge` prints for a list of (form name, `ok v` / `panic K`): the common result, or
+    `forms-disagree [name: result]…` — so that a dispatch REGENERATED from a semantically edited source (the model
+    then runs the edited dispatch) shows the same disagreement as the real code and is reported against the spec -/
+def mergeForms (rs : List (String × String)) : String :=
+  match rs with
+  | [] => "bad-op"
+  | (_, r0) :: _ =>
+    if rs.all (fun p => p.2 == r0) then r0
+    else rs.foldl (fun s p => s ++ " [" ++ p.1 ++ ": " ++ p.2.replace " " "_" ++ "]") "forms-disagree"
+
+def chkRaw (model spec : String) : String :=
+  if model = spec then model else model ++ " !model-spec-mismatch spec=" ++ spec
+
+/-- the six call forms of `forms_bin6!` (`vv vr rv rr` + `as` = `x op= b` → val/val, `asr` = `x op= &b` → val/ref,
+    `impl_binop_assign_by_taking`) over the four ownership forms of the regenerated TypedRepr-level dispatch -/
+def forms6 (f : OwnForm → String) : String :=
+  let vv := f .valVal; let vr := f .valRef; let rv := f .refVal; let rr := f .refRef
+  mergeForms [("vv", vv), ("vr", vr), ("rv", rv), ("rr", rr), ("as", vv), ("asr", vr)]
+
+def exStr (W : Nat) : Except PanicKind TRepr → String
+  | .ok r => ok (natToHex (r.value W))
+  | .error k => panic k.name
+
+/-- range of a primitive integer type by its Rust name -/
+def primRange : String → Option (Int × Int)
+  | "u8" => some (0, 2 ^ 8 - 1) | "u16" => some (0, 2 ^ 16 - 1) | "u32" => some (0, 2 ^ 32 - 1)
+  | "u64" => some (0, 2 ^ 64 - 1) | "usize" => some (0, 2 ^ 64 - 1) | "u128" => some (0, 2 ^ 128 - 1)
+  | "i8" => some (-2 ^ 7, 2 ^ 7 - 1) | "i16" => some (-2 ^ 15, 2 ^ 15 - 1) | "i32" => some (-2 ^ 31, 2 ^ 31 - 1)
+  | "i64" => some (-2 ^ 63, 2 ^ 63 - 1) | "isize" => some (-2 ^ 63, 2 ^ 63 - 1) | "i128" => some (-2 ^ 127, 2 ^ 127 - 1)
+  | _ => none
+
+def parsePrim (ty s : String) (unsignedOnly : Bool) : Option Int := do
+  let (lo, hi) ← primRange ty
+  if unsignedOnly && lo < 0 then none
+  let v ← parseInt s
+  if lo ≤ v ∧ v ≤ hi then some v else none
+
+/-- `UBig ∘ prim` (`impl_binop_with_primitive`: `self.op(UBig::from(rhs))`, self by value or by reference; the assign
+    forms `self.op_assign(UBig::from(rhs))` → val/val) -/
+def formsBigPrim (f : OwnForm → String) : String :=
+  let vv := f .valVal; let rv := f .refVal
+  mergeForms [("vp", vv), ("rp", rv), ("vpr", vv), ("rpr", rv), ("as", vv), ("asr", vv)]
+
+/-- `prim ∘ UBig` (`impl_commutative_binop_with_primitive`: `UBig::from(self).op(rhs)`, rhs by value or by reference) -/
+def formsPrimBig (f : OwnForm → String) : String :=
+  let vv := f .valVal; let vr := f .valRef
+  mergeForms [("pv", vv), ("pr", vr), ("prv", vv), ("prr", vr)]
+
+/-- the model's `form` argument of `ibigAdd` / `ibigSub` for an ownership form -/
+def formNat : OwnForm → Nat
+  | .refRef => 0 | .valVal => 0 | .refVal => 1 | .valRef => 2
+
+def ubigOp (W : Nat) (op : String) (f : OwnForm) (a b : TRepr) : Option String :=
+  match op with
+  | "add" => some (ok (natToHex ((TRepr.addF W f a b).value W)))
+  | "sub" => some (exStr W (TRepr.subF W f a b))
+  | "mul" => some (ok (natToHex ((TRepr.mulF W f a b).value W)))
+  | _ => none
+
+def ibigOp (W : Nat) (op : String) (f : OwnForm) (a b : SRepr) : Option String :=
+  match op with
+  | "add" => some (ok (sreprToStr W (ibigAdd W a b (formNat f))))
+  | "sub" => some (ok (sreprToStr W (ibigSub W a b (formNat f))))
+  | "mul" => some (ok (sreprToStr W (ibigMul W a b)))
+  | _ => none
+
+def specOpInt (op : String) (x y : Int) : Option Int :=
+  match op with
+  | "add" => some (x + y) | "sub" => some (x - y) | "mul" => some (x * y) | _ => none
+
+/-- the four primitive-operand op families; `none` for anything else -/
+def primDispatch (W : Nat) (op : String) (args : List String) : Option String :=
+  match op.splitOn ".", args with
+  | ["up", o], [ty, a, p] => do
+    let x ← parseNat a; let pv ← parsePrim ty p true
+    let _ ← ubigOp W o .valVal (.small 0) (.small 0)
+    let m := formsBigPrim fun f => (ubigOp W o f (ofNat W x) (ofNat W pv.toNat)).getD "bad-op"
+    let s ← specOpInt o x pv
+    pure (chkRaw m (if s < 0 then panic "NegativeUBig" else ok (intToHex s)))
+  | ["pu", o], [ty, p, a] => do
+    let pv ← parsePrim ty p true; let x ← parseNat a
+    let _ ← ubigOp W o .valVal (.small 0) (.small 0)
+    let m := formsPrimBig fun f => (ubigOp W o f (ofNat W pv.toNat) (ofNat W x)).getD "bad-op"
+    let s ← specOpInt o pv x
+    pure (chkRaw m (if s < 0 then panic "NegativeUBig" else ok (intToHex s)))
+  | ["ip", o], [ty, a, p] => do
+    let x ← parseInt a; let pv ← parsePrim ty p false
+    let _ ← ibigOp W o .valVal ⟨false, .small 0⟩ ⟨false, .small 0⟩
+    let m := formsBigPrim fun f => (ibigOp W o f (.ofInt W x) (.ofInt W pv)).getD "bad-op"
+    let s ← specOpInt o x pv
+    pure (chkRaw m (ok (intToHex s)))
+  | ["pi", o], [ty, p, a] => do
+    let pv ← parsePrim ty p false; let x ← parseInt a
+    let _ ← ibigOp W o .valVal ⟨false, .small 0⟩ ⟨false, .small 0⟩
+    let m := formsPrimBig fun f => (ibigOp W o f (.ofInt W pv) (.ofInt W x)).getD "bad-op"
+    let s ← specOpInt o pv x
+    pure (chkRaw m (ok (intToHex s)))
+  | _, _ => none
+
 def dispatch : Dispatch := fun W op args =>
   match op, args with
   | "u.add", [a, b] => do
     let x ← parseNat a; let y ← parseNat b
-    let m := forms3 fun f => natToHex (((ofNat W x).add W (ofNat W y) f).value W)
-    pure (chk m (natToHex (x + y)))
+    let m := forms6 fun f => ok (natToHex ((TRepr.addF W f (ofNat W x) (ofNat W y)).value W))
+    pure (chkRaw m (ok (natToHex (x + y))))
   | "u.sub", [a, b] => do
     let x ← parseNat a; let y ← parseNat b
-    let r (f : Nat) : String := match (ofNat W x).sub W (ofNat W y) (f == 1) with
-      | .ok r => "ok " ++ natToHex (r.value W)
-      | .error k => "panic " ++ k.name
-    let m := if r 0 = r 1 then r 0 else r 0 ++ " !model-forms-disagree"
-    let spec := if y ≤ x then "ok " ++ natToHex (x - y) else "panic NegativeUBig"
-    pure (if m = spec then m else m ++ " !model-spec-mismatch spec=" ++ spec)
+    let m := forms6 fun f => exStr W (TRepr.subF W f (ofNat W x) (ofNat W y))
+    pure (chkRaw m (if y ≤ x then ok (natToHex (x - y)) else panic "NegativeUBig"))
   | "u.mul", [a, b] => do
     let x ← parseNat a; let y ← parseNat b
-    pure (chk (natToHex (((ofNat W x).mul W (ofNat W y)).value W)) (natToHex (x * y)))
+    let m := forms6 fun f => ok (natToHex ((TRepr.mulF W f (ofNat W x) (ofNat W y)).value W))
+    pure (chkRaw m (ok (natToHex (x * y))))
   | "u.sqr", [a] => do
     let x ← parseNat a
-    pure (chk (natToHex (((ofNat W x).sqr W).value W)) (natToHex (x * x)))
+    pure (chk (natToHex ((ubigSqr W (ofNat W x)).value W)) (natToHex (x * x)))
   | "u.cubic", [a] => do
     let x ← parseNat a
-    let s := (ofNat W x).sqr W
-    pure (chk (natToHex (((ofNat W x).mul W s).value W)) (natToHex (x * x * x)))
+    pure (chk (natToHex ((ubigCubic W (ofNat W x)).value W)) (natToHex (x * x * x)))
   | "u.pow", [a, e] => do
     let x ← parseNat a; let n ← parseDecNat e
-    match ubigPowFull W (ofNat W x) n with
-    | .ok r => pure (chk (natToHex (r.value W)) (natToHex (x ^ n)))
+    match ubigPowGuarded W (ofNat W x) n with
+    | .ok r => pure (chk (natToHex (r.value W)) (natToHex (specPowNat x n)))
     | .error k => pure (panic k.name)
   | "i.pow", [a, e] => do
     let x ← parseInt a; let n ← parseDecNat e
-    match ibigPowFull W (.ofInt W x) n with
-    | .ok r => pure (chk (sreprToStr W r) (intToHex (x ^ n)))
+    match ibigPowGuarded W (.ofInt W x) n with
+    | .ok r => pure (chk (sreprToStr W r) (intToHex (specPowInt x n)))
     | .error k => pure (panic k.name)
   | "i.add", [a, b] => do
     let x ← parseInt a; let y ← parseInt b
@@ -70,11 +167,10 @@ def dispatch : Dispatch := fun W op args =>
     pure (chk (sreprToStr W (ibigMul W (.ofInt W x) (.ofInt W y))) (intToHex (x * y)))
   | "i.sqr", [a] => do
     let x ← parseInt a
-    pure (chk (natToHex (((ofNat W x.natAbs).sqr W).value W)) (intToHex (x * x)))
+    pure (chk (natToHex ((ibigSqr W (.ofInt W x)).value W)) (intToHex (x * x)))
   | "i.cubic", [a] => do
     let x ← parseInt a
-    let s : SRepr := ⟨false, (ofNat W x.natAbs).sqr W⟩
-    pure (chk (sreprToStr W (ibigMul W (.ofInt W x) s)) (intToHex (x * x * x)))
+    pure (chk (sreprToStr W (ibigCubic W (.ofInt W x))) (intToHex (x * x * x)))
   | "i.neg", [a] => do
     let x ← parseInt a
     pure (chk (sreprToStr W (SRepr.ofInt W x).negate) (intToHex (-x)))
@@ -106,6 +202,6 @@ def dispatch : Dispatch := fun W op args =>
   | "iu.mul", [a, b] => do
     let x ← parseInt a; let y ← parseNat b
     pure (chk (sreprToStr W (ibigMul W (.ofInt W x) ⟨false, ofNat W y⟩)) (intToHex (x * y)))
-  | _, _ => none
+  | _, _ => primDispatch W op args
 
 end Dashu.Driver.Int
